@@ -67,6 +67,23 @@ class State:
         return State(dict(self.env), {k: dict(v) for k, v in self.heap.items()}, self.guard, dict(self.imports))
 
 
+def zip_extent(lens: list):
+    """the number of tuples zip(...) yields: the smallest of the extents (decided when they differ by constants; otherwise a `min` atom)"""
+    lens = [l for l in lens if l is not None]
+    if not lens:
+        return None
+    best = lens[0]
+    for l in lens[1:]:
+        d = l - best
+        if d.is_const():
+            if d.const_value() < 0:
+                best = l
+        else:
+            from .values import minmax_atom
+            best = minmax_atom('min', [best, l])
+    return best
+
+
 def flat_env(env: dict, heap: dict) -> dict:
     """the environment with every object field as a pseudo-name `@<oid>.<field>`: loop state kept in object fields is read like loop state kept in names"""
     out = dict(env)
@@ -1108,7 +1125,7 @@ class Evaluator:
         elif isinstance(it, Term) and it.head == 'zip':
             ctx.kind = 'zip'
             lens = [a.length for a in it.args if isinstance(a, Num) and a.length is not None]
-            ctx.hi = lens[0] if lens else None
+            ctx.hi = zip_extent(lens)
             elem = Tup([self.element_of(a, lsym) for a in it.args])
         elif isinstance(it, Term) and it.head == 'map':
             ctx.kind = 'zip'
@@ -1965,7 +1982,7 @@ class Evaluator:
         if isinstance(it, Term) and it.head == 'zip':
             elem = Tup([self.element_of(a, csym) for a in it.args])
             lens = [a.length for a in it.args if isinstance(a, Num) and a.length is not None]
-            length = lens[0] if lens else None
+            length = zip_extent(lens)
         elif isinstance(it, Term) and it.head == 'map':
             elem = self.call(it.args[0], [self.element_of(a, csym) for a in it.args[1:]], {}, None, st, e)
             lens = [a.length for a in it.args[1:] if isinstance(a, Num) and a.length is not None]
